@@ -203,7 +203,11 @@ def judge(item, ex, specs, kwargs, env, pick_branch):
     """-> record with status ok | skipped | mismatch (tie) | law-fail (real value differs from the law's own value)"""
     rec = {"env": {str(k): str(v) for k, v in env.items()}}
     kind, got = real_outcome(item, kwargs)
-    ekind, want, bi = expected_outcome(ex, env, pick_branch)
+    try:
+        ekind, want, bi = expected_outcome(ex, env, pick_branch)
+    except Exception as e:  # pylint: disable=broad-except
+        rec.update(real=kind, status="skipped", why=f"closed form not evaluable here: {type(e).__name__}: {str(e)[:100]}")
+        return rec
     rec.update(real=kind, observed=got if kind == "value" else None, error=got if kind == "raise" else None,
         expected_kind=ekind, closed_form_value=want, branch=bi)
     if ekind == "refuse":
@@ -406,10 +410,17 @@ def inverse_numeric(module, rng):
                 xs = x if isinstance(x, list) else [x]
                 free = set().union(*[sympy.sympify(c).free_symbols for c in wc]) if wc else set()
                 rep = {s: sympy.Rational(rng.randint(2, 9), rng.randint(1, 5)) for s in sorted(free, key=str)}
+                from symplyphysics import convert_to_si  # pylint: disable=import-outside-toplevel
+                for c in wc:
+                    for q in sympy.sympify(c).atoms(SymQuantity):
+                        rep[q] = sympy.nsimplify(convert_to_si(q))
                 # module scalars (mass, ...) are shared by f and g: the same substitution on both sides
                 wv = [_num(sympy.sympify(c).xreplace(rep)) for c in wc] + [0.0] * (len(xs) - len(wc))
                 xv = [_num(c) for c in xs] + [0.0] * (len(wc) - len(xs))
-                status = "ok" if _same(wv, xv) else "mismatch"
+                if _has_nan(wv) or any(isinstance(v, complex) for v in wv):
+                    status = "skipped"
+                else:
+                    status = "ok" if _same(wv, xv) else "mismatch"
                 recs.append({"stream": "inverse-mixed-length", "pair": f"{gname}({fname}(x))", "short": short, "status": status,
                     "observed": wv, "closed_form_value": xv, "env": {k: str(v) for k, v in plain.items()}})
             except Exception as e:  # pylint: disable=broad-except
